@@ -168,7 +168,9 @@ int libwifi_bss_tag_parser(struct libwifi_bss *bss, struct libwifi_tag_iterator 
             case TAG_VENDOR_SPECIFIC:
                 vendor_header = (struct libwifi_tag_vendor_header *) it->tag_data;
 
-                if (memcmp(vendor_header->oui, MICROSOFT_OUI, 3) == 0) {
+                // The OUI and type are only there if the element is long enough to hold them
+                if (it->tag_header->tag_len >= sizeof(struct libwifi_tag_vendor_header) &&
+                    memcmp(vendor_header->oui, MICROSOFT_OUI, 3) == 0) {
                     if ((libwifi_bss_handle_msft_tag(bss, it->tag_data, it->tag_header->tag_len) != 0)) {
                         return -EINVAL;
                     }
